@@ -295,7 +295,7 @@ class Ctx:
         self.trusted = list(BASE_TRUSTED)
         self.axioms = set()
         self.theorems = []
-        self.scratch = tempfile.mkdtemp(prefix="osverif-")
+        self.scratch = tempfile.mkdtemp(prefix="osverif_")
         self.cases_dir = os.path.join(self.scratch, "Cases")
         os.makedirs(self.cases_dir)
         self._ncase = 0
@@ -409,8 +409,8 @@ class Ctx:
             return list(ex.map(one, bodies))
 
     def coq_eval_nolock(self, requires, body, timeout=900):
-        fn = tempfile.mktemp(prefix="shard_", suffix=".v", dir=self.cases_dir)
-        fn = fn.replace("-", "_")
+        import uuid
+        fn = os.path.join(self.cases_dir, "shard_" + uuid.uuid4().hex + ".v")
         hdr = "From Coq Require Import List ZArith String Bool.\nImport ListNotations.\n"
         hdr += "".join(f"Require Import {r}.\n" for r in requires)
         hdr += "Set Printing Width 1000000.\nSet Printing Depth 1000000.\n"
